@@ -14,16 +14,19 @@
 
    - C15_spec_total: for every operation and every argument list of the right shape ([shape_ok]: the right number of
      arguments; operand words in [0, 2^128); any integer for scaleb's exponent, for from-integer and from-binary sources;
-     predicate index 0..19 for the comparisons; any byte list for the three string entry points; any list of operand words
-     for sum and product - no length bound, by induction over the list) some (returned values, raised flags) pair is
+     predicate index 0..19 for the comparisons; any byte list for the string entry points parse / FromStr / serde
+     deserialisation; any list for the tag of d128::nan; no argument for the constants and the macro samples; any list of
+     operand words for sum and product - no length bound, by induction over the list) some (returned values, raised flags) pair is
      accepted OUTRIGHT (verdict 1, not merely as a recorded known finding). So the specification never asks the
      impossible and leaves no input undefined: NaN, Err, indefinite integer + invalid are ordinary accepted results.
      C15_spec_total_judge: the same through [judge], from every entry status word.
      C15_spec_total_any_bits is the stronger form actually proved: only the number of arguments matters ([defined_op]);
      operand words, widths and indices may be any integers.
-   - C15_domain_exact: [defined_op] is exactly the domain: outside it [expected] is the empty list (operations the
-     dispatcher does not define: OSerde, OConsts, OOpArith of a non-arithmetic operation, wrong argument count), which
-     nothing satisfies. Nothing was left out of [shape_ok] for being too expensive; every operation
+   - C15_domain_exact: [defined_op] is exactly the domain: outside it [expected] is the empty list (OOpArith of a
+     non-arithmetic operation; a wrong argument count, e.g. OConsts or OMacro with arguments), which nothing satisfies.
+     For serde serialisation the model re-reads the Display text of the operand; that this text is always a complete
+     literal (so the expectation never falls into its empty default) is proved from the C05 format lemmas for every
+     decoded datum (finite, infinite, NaN). Nothing was left out of [shape_ok] for being too expensive; every operation
      constructor that the line protocol can produce (ocaml/ops_table.ml) is covered (C15_protocol_ops_covered;
      [shape_ok] does not look at the parameters w, signed, mode, xflag of the conversions).
    - C15_no_answer_rejected(_judge): an empty list of returned values - the observable form of "the call did not
@@ -128,7 +131,7 @@ Example C15_protocol_ops_covered :
   forallb (fun o => shape_ok o [ex_snan])
     [OSqrt; ORint; ONearbyint; ORintFix RNE; ORintFix RNA; ORintFix RDN; ORintFix RUP; ORintFix RTZ; OModf; OFrexp;
      ONextUp; ONextDown; OLogb; OIlogb; OQuantexp; OLlquantexp; OQuantum; OClass; OIsx; OAbs; ONeg; OCopy; OEncodeDpd;
-     ODecodeDpd; OFromBin 8 23 true; OFromBin 11 52 true; OFromBin 8 23 false; OFromBin 11 52 false;
+     ODecodeDpd; OSerde; OFromBin 8 23 true; OFromBin 11 52 true; OFromBin 8 23 false; OFromBin 11 52 false;
      OFromInt 32 true; OFromInt 32 false; OFromInt 64 true; OFromInt 64 false;
      OToInt 32 true RNE false; OToInt 32 false RDN true; OToInt 64 true RUP false; OToInt 64 false RTZ true;
      OToInt 64 true RNA true; OLrint; OLround; OFmt; OOpNeg] &&
@@ -138,13 +141,15 @@ Example C15_protocol_ops_covered :
      OHashSet; OOpArith OAdd; OOpArith OSub; OOpArith OMul; OOpArith ODiv; OOpArith ORem] &&
   shape_ok OFma [ex_snan; ex_inf; ex_zero] && shape_ok OCmp [ex_snan; ex_inf; 19] &&
   shape_ok (OScaleb 32) [ex_one; -5] && shape_ok (OFromInt 64 true) [-1] &&
-  forallb (fun o => shape_ok o [49; 69; 50; 120; 255; 0]) [OParse; OFromStr; OFromStr2] &&
+  forallb (fun o => shape_ok o [49; 69; 50; 120; 255; 0] && shape_ok o []) [OParse; OFromStr; OFromStr2; OSerdeDe; ONanTag] &&
+  shape_ok OConsts [] && shape_ok OMacro [] &&
   forallb (fun o => shape_ok o [] && shape_ok o [ex_snan; ex_inf; ex_zero; ex_qnan1; ex_one]) [OSum; OProduct] = true.
 Proof. vm_compute. reflexivity. Qed.
 
 (* ... and what the dispatcher does not define is outside the domain *)
 Example C15_outside_domain :
-  defined_op OSerde [ex_one] = false /\ defined_op OConsts [] = false /\ defined_op (OOpArith OSqrt) [ex_one; ex_one] = false /\
+  defined_op OSerde [] = false /\ defined_op OConsts [ex_one] = false /\ defined_op OMacro [0] = false /\
+  defined_op (OOpArith OSqrt) [ex_one; ex_one] = false /\
   defined_op OAdd [ex_one] = false /\ shape_ok OAdd [ex_one; -1] = false /\ shape_ok OCmp [ex_one; ex_one; 20] = false.
 Proof. vm_compute. repeat split; reflexivity. Qed.
 
@@ -171,6 +176,18 @@ Proof. vm_compute. repeat split; reflexivity. Qed.
 (* conversion to a 32-bit integer of an infinity: the indefinite integer with invalid is the accepted answer *)
 Example C15_to_int_inf : acc (expected (OToInt 32 true RNE false) RNE [ex_inf]) [2 ^ 31] F_INV = 1.
 Proof. vm_compute. reflexivity. Qed.
+
+(* serde: the JSON text, Ok, and the same bits re-read; d128::nan("1"): any quiet NaN with one of the listed flag sets;
+   the constants: seventeen values; in each case no value at all is rejected *)
+Example C15_serde_nan_consts :
+  expected OSerde RNE [ex_one] = Exact [([str_num ([34] ++ m_format true (decode ex_one) ++ [34]); 1; ex_one], 0)] /\
+  acc (expected OSerde RNE [ex_one]) [] 0 = 0 /\
+  acc (expected OSerdeDe RNE [49]) [1; ex_one] 0 = 1 /\ acc (expected OSerdeDe RNE [120]) [1; encode QNAN] 0 = 1 /\
+  acc (expected OSerdeDe RNE [120]) [] 0 = 0 /\
+  acc (expected ONanTag RNE [49]) [ex_qnan1] F_INX = 1 /\ acc (expected ONanTag RNE [49]) [] 0 = 0 /\
+  acc (expected ONanTag RNE [49]) [ex_snan] 0 = 0 /\
+  acc (expected OConsts RNE []) [] 0 = 0 /\ acc (expected OMacro RNE []) [] 0 = 0.
+Proof. vm_compute. repeat split; reflexivity. Qed.
 
 (* the exception: frexp of a zero is unconstrained in the model, an empty output list is accepted by [acc] *)
 Example C15_frexp_zero_unconstrained :
